@@ -50,6 +50,8 @@ package store
 //@ iface (st Store) RepoGet(ctx context.Context, repoStr string) (repo Repo, err error)
 //@   -- only names of the repository grammar reach the store (C16); the empty name is excluded by the path split, which is not modelled
 //@   requires [name-valid]{C16} repoStr == "" || re_rePath(repoStr)
+//@   -- ... and such a name is a relative path without .. elements: joined to the root it stays below the root
+//@   requires [name-safe]{C16} safeRel(repoStr)
 //@   modifies ghost(fault), alloc, ghost(fswrites)
 //@   ensures [fs-policy]{C14} !fsWritable() ==> fswrites() == old(fswrites())
 //@   ensures [ok] err == nil ==> repo != nil && repo.name == repoStr
@@ -206,6 +208,7 @@ package store
 
 //@ func (dr *dirRepo) gc$3() (err error)
 //@   requires [not-read-only]{C14} fsWritable()
+//@   fspath [inside-repo-dir]{C16} within(path, dr.path)
 
 //@ func (dr *dirRepo) repoInit(locked bool) (err error)
 //@   requires [not-read-only]{C14} !*roPtr()
@@ -245,3 +248,34 @@ package store
 
 //@ func (mr *memRepo) BlobCreate(opts []BlobOpt) (bc BlobCreator, sessionID string, err error)
 //@   assert [new-upload-tee]{C01} before call Cache.Set#1: memUploadInv(bc)
+
+
+//@ -- ------------------------------------------------------------------
+//@ -- C16 at the store level: every path handed to package os lies below the directory of the object that uses it,
+//@ -- and the directory of a repository lies below the root.  inside(p, d) is produced by filepath.Join(d, e...) when
+//@ -- every e is a relative path without .. elements (literals are inspected; the two parts of a digest that passed
+//@ -- Validate are; the name of a directory entry is), and by os.CreateTemp(d, ...).
+//@ pred within(p, base) := p == base || inside(p, base)
+
+//@ funcs dirRepo.*
+//@   fspath [inside-repo-dir]{C16} within(path, recv.path)
+
+//@ funcs dirRepoUpload.*
+//@   requires invariant [upload-paths] recv.dr != nil && recv.path == recv.dr.path && inside(recv.filename, recv.path)
+//@   fspath [inside-repo-dir]{C16} within(path, recv.path)
+
+//@ funcs memRepo.*
+//@   fspath [inside-repo-dir]{C16} within(path, recv.path)
+
+//@ func (d *dir) RepoGet(ctx context.Context, repoStr string) (repo Repo, err error)
+//@   requires [name-safe]{C16} safeRel(repoStr)
+//@   fspath [inside-root]{C16} within(path, d.root)
+//@   assert [repo-dir-inside-root]{C16} before call Cache.Set#1: within(dr.path, d.root)
+
+//@ func (m *mem) RepoGet(ctx context.Context, repoStr string) (repo Repo, err error)
+//@   requires [name-safe]{C16} safeRel(repoStr)
+//@   assert [repo-dir-inside-root]{C16} before call memRepo.repoInit#1: within(mr.path, m.conf.Storage.RootDir)
+
+//@ -- no other function of the package touches the file system
+//@ funcs * !dirRepo.* !dirRepoUpload.* !memRepo.* !dir.RepoGet
+//@   fspath [no-file-access-expected]{C16} false
